@@ -727,13 +727,35 @@ func serverCert() tls.Certificate {
 	return *srvCert
 }
 
+// shake runs one handshake over net.Pipe; a handshake that dies on the pipe deadline (loaded machine)
+// is retried up to three times before its error is reported
 func shake(scfg, ccfg *tls.Config) (o shakeObs) {
+	for attempt := 0; attempt < 3; attempt++ {
+		o = shakeOnce(scfg, ccfg)
+		if !isTimeout(o.cErr) && !isTimeout(o.sErr) {
+			return o
+		}
+	}
+	return o
+}
+
+func isTimeout(err error) bool {
+	if err == nil {
+		return false
+	}
+	if ne, ok := err.(net.Error); ok && ne.Timeout() {
+		return true
+	}
+	return strings.Contains(err.Error(), "i/o timeout") || strings.Contains(err.Error(), "deadline")
+}
+
+func shakeOnce(scfg, ccfg *tls.Config) (o shakeObs) {
 	a, b := net.Pipe()
 	done := make(chan struct{})
 	go func() {
 		defer close(done)
 		s := tls.Server(b, scfg)
-		b.SetDeadline(time.Now().Add(10 * time.Second))
+		b.SetDeadline(time.Now().Add(60 * time.Second))
 		o.sErr = s.Handshake()
 		st := s.ConnectionState()
 		o.sResum, o.vers, o.suite = st.DidResume, st.Version, st.CipherSuite
@@ -743,7 +765,7 @@ func shake(scfg, ccfg *tls.Config) (o shakeObs) {
 		b.Close()
 	}()
 	cl := tls.Client(a, ccfg)
-	a.SetDeadline(time.Now().Add(10 * time.Second))
+	a.SetDeadline(time.Now().Add(60 * time.Second))
 	o.cErr = cl.Handshake()
 	if o.cErr == nil {
 		buf := make([]byte, 1)
@@ -783,6 +805,10 @@ func runShake(c *vh.Ctx, in input) {
 		Time: func() time.Time { return time.Unix(t0, 0) }}
 	srvA := newServer(kA)
 	first := shake(srvA, ccfg)
+	for attempt := 0; attempt < 2 && (first.cErr != nil || first.sErr != nil || cc.s == nil); attempt++ {
+		cc.s, cc.last = nil, nil
+		first = shake(srvA, ccfg)
+	}
 	if first.cErr != nil || first.sErr != nil || cc.s == nil {
 		c.Violation("handshake-setup", fmt.Sprintf("initial full handshake failed or issued no ticket: client %v server %v", first.cErr, first.sErr), "case", in)
 		return
@@ -874,6 +900,12 @@ func runShake(c *vh.Ctx, in input) {
 		st, ok := tls.VerifC31UnmarshalState12(pt)
 		return st.CreatedAt, ok
 	}
+	issuedAt := map[string]int64{} // ticket bytes -> server time of the handshake that issued it
+	backdated := func(t []byte) bool {
+		cr, ok := createdOf(t)
+		at, known := issuedAt[string(t)]
+		return ok && known && int64(cr) != at
+	}
 	var prevIssued *tls.ClientSessionState
 	for _, sc := range scens {
 		now = t0 + sc.dt
@@ -917,6 +949,10 @@ func runShake(c *vh.Ctx, in input) {
 			c.Violation("resumed-stale-ticket", fmt.Sprintf("TLS %#04x: server resumed from a ticket issued %d s ago", vers, sc.dt), "case", single)
 		case o.sResum && !sc.resume:
 			c.Violation("resumed-forged-ticket", fmt.Sprintf("TLS %#04x: server resumed from %s in scenario %s", vers, descMut(m), sc.name), "case", single)
+		case !o.sResum && sc.resume && sc.useNew && vers < tls.VersionTLS13 && backdated(t):
+			// the known class: the presented ticket was issued by the full handshake that followed an
+			// authentic but not resumed ticket and carries that ticket's creation time
+			c.Violation("issued-ticket-backdated", fmt.Sprintf("TLS %#04x: scenario %s: the ticket issued by the preceding full handshake carries the creation time of the stale ticket presented there and is not resumed one second later", vers, sc.name), "case", single)
 		case !o.sResum && sc.resume && sc.useNew:
 			c.Violation("issued-ticket-not-resumed", fmt.Sprintf("TLS %#04x: scenario %s: the ticket issued by the preceding handshake under the current key was not resumed one second later", vers, sc.name), "case", single)
 		case !o.sResum && sc.resume:
@@ -936,6 +972,7 @@ func runShake(c *vh.Ctx, in input) {
 		// creation time stamped into a ticket issued by this handshake
 		if cc.last != nil && o.cErr == nil && o.sErr == nil {
 			nt, _, _ := tls.VerifC31SessionTicket(cc.last)
+			issuedAt[string(nt)] = now
 			if got, ok := createdOf(nt); ok {
 				prev := "None"
 				if pc, ok := createdOf(t); ok {
@@ -943,8 +980,13 @@ func runShake(c *vh.Ctx, in input) {
 				}
 				issues = append(issues, vh.Pair(vh.Bool(o.sResum), prev, vh.Z(now), vh.N(got)))
 				// property: a ticket issued by a full handshake is fresh; a re-wrapped one keeps its age
-				if !o.sResum && int64(got) != now {
-					c.Violation("issued-ticket-backdated", fmt.Sprintf("TLS %#04x, %s: full handshake at %d issued a ticket created at %d", vers, sc.name, now, got), "case", single)
+				_, presentedOpened := createdOf(t)
+				switch {
+				case o.sResum || int64(got) == now:
+				case presentedOpened && vers < tls.VersionTLS13:
+					c.Violation("issued-ticket-backdated", fmt.Sprintf("TLS %#04x, %s: the full handshake at %d that followed an authentic but not resumed ticket issued a ticket created at %d (the old ticket's time)", vers, sc.name, now, got), "case", single)
+				default:
+					c.Violation("issued-ticket-wrong-time", fmt.Sprintf("TLS %#04x, %s: full handshake at %d issued a ticket created at %d although no presented ticket opened", vers, sc.name, now, got), "case", single)
 				}
 			}
 		}
